@@ -390,7 +390,11 @@ func (R *Renderer) idx(v ssa.Value) string {
 		return "*"
 	}
 	if isIntType(v.Type()) {
-		return R.Lin(v).String()
+		l := R.Lin(v)
+		if len(l.T) == 1 && l.T["*"] == 1 && l.K == 0 {
+			return "*"
+		}
+		return l.String()
 	}
 	return R.V(v)
 }
@@ -665,7 +669,7 @@ func (R *Renderer) counter(p *ssa.Phi) string {
 	sort.Strings(conds)
 	conds = dedup(conds)
 	if len(conds) == 1 && (conds[0] == "always" || conds[0] == "multi-pred") {
-		return "#i" // plain loop induction variable 0,1,2,...
+		return "*" // plain loop induction variable 0,1,2,...: same rendering as a range index
 	}
 	return "count{" + strings.Join(conds, " ; ") + "}"
 }
